@@ -125,7 +125,7 @@ var $newType = (size, kind, string, named, pkg, exported, constructor) => {
                 this.$imag = $fround(imag);
                 this.$val = this;
             };
-            typ.keyFor = x => { return x.$real + "$" + x.$imag; };
+            typ.keyFor = x => { return $floatKey(x.$real) + "$" + $floatKey(x.$imag); };
             break;
 
         case $kindComplex128:
@@ -134,7 +134,7 @@ var $newType = (size, kind, string, named, pkg, exported, constructor) => {
                 this.$imag = imag;
                 this.$val = this;
             };
-            typ.keyFor = x => { return x.$real + "$" + x.$imag; };
+            typ.keyFor = x => { return $floatKey(x.$real) + "$" + $floatKey(x.$imag); };
             break;
 
         case $kindArray:
@@ -146,9 +146,13 @@ var $newType = (size, kind, string, named, pkg, exported, constructor) => {
                 typ.len = len;
                 typ.comparable = elem.comparable;
                 typ.keyFor = x => {
-                    return Array.prototype.join.call($mapArray(x, e => {
+                    if (!typ.comparable) {
+                        $throwRuntimeError("hash of unhashable type " + typ.string);
+                    }
+                    /* Array.prototype.map yields a plain array even for typed arrays, which would coerce the keys to numbers. */
+                    return Array.prototype.map.call(x, e => {
                         return String(elem.keyFor(e)).replace(/\\/g, "\\\\").replace(/\$/g, "\\$");
-                    }), "$");
+                    }).join("$");
                 };
                 typ.copy = (dst, src) => {
                     if (src.length === undefined) {
